@@ -95,29 +95,70 @@ Fixpoint utf8_ok (b : bytes) : bool :=
     else false
   end.
 
+(* ---- text -> raw decoders of keys and signatures (_decodeVID / _decodeQVK /
+   _decodeSGN): total, and rejecting every non-canonical text (wrong length,
+   non Base64 character, non-zero midpad bits) ---- *)
+(* 44 chars: code char + 43 chars; 'A' + 43 chars decode to 33 bytes whose first
+   (midpad) byte must be zero; the other 32 are the raw key *)
+Definition decode_key (t : bytes) : option (N * bytes) :=
+  match t with
+  | c :: rest =>
+    if Nat.eqb (length t) 44 && is_b64 t then
+      match dec (65 :: rest) with
+      | 0 :: raw => Some (c, raw)
+      | _ => None
+      end
+    else None
+  | [] => None
+  end.
+Definition encode_key (c : N) (raw : bytes) : bytes := c :: tl (enc (0 :: raw)).
+
+(* 88 chars: code '0B' + 86 chars; 'AA' + 86 chars decode to 66 bytes whose first
+   two (midpad) bytes must be zero; the other 64 are the raw signature *)
+Definition decode_sgn (t : bytes) : option bytes :=
+  match t with
+  | c0 :: c1 :: rest =>
+    if (c0 =? 48) && (c1 =? 66) && Nat.eqb (length t) 88 && is_b64 t then
+      match dec (65 :: 65 :: rest) with
+      | 0 :: 0 :: raw => Some raw
+      | _ => None
+      end
+    else None
+  | _ => None
+  end.
+Definition encode_sgn (raw : bytes) : bytes := 48 :: 66 :: skipn 2 (enc (0 :: 0 :: raw)).
+
 (* ---- Memoer.verify: which key a signature is checked against ---- *)
 Section Verify.
-  (* the crypto proper: _decodeQVK of the key text ('B' + 43 chars), _decodeSGN of
-     the signature text and libsodium crypto_sign_verify_detached *)
-  Variable sigverify : bytes -> bytes -> bytes -> res unit.
+  (* libsodium crypto_sign_verify_detached on raw key (32 bytes), raw signature
+     (64 bytes) and the signed bytes *)
+  Variable rawverify : bytes -> bytes -> bytes -> res unit.
   (* self.keep.get(vid) -> keyage.qvk *)
   Variable keep : bytes -> option bytes.
 
-  (* _decodeVID then the key choice: a non-transferable vid ('B') IS the verkey;
-     a transferable vid ('D') or digest vid ('E') is only a label whose current
-     verkey must be looked up in .keep *)
+  (* a non-transferable vid ('B') IS the verkey; a transferable ('D') or digest
+     ('E') vid is only a label whose current verkey text (code 'B') must be
+     looked up in .keep *)
+  Definition key_raw (vid : bytes) : option bytes :=
+    match decode_key vid with
+    | None => None
+    | Some (c, rawv) =>
+      if c =? 66 then Some rawv
+      else if (c =? 68) || (c =? 69) then
+        match keep vid with
+        | None => None                                          (* missing keyage *)
+        | Some qvk => match decode_key qvk with
+                      | Some (cq, rawq) => if cq =? 66 then Some rawq else None
+                      | None => None
+                      end
+        end
+      else None                                                 (* code not in B D E *)
+    end.
+
   Definition mverify (vid sig ser : bytes) : res unit :=
-    match vid with
-    | [] => Exc MemoErr
-    | c :: rest =>
-      if negb ((c =? 66) || (c =? 68) || (c =? 69)) then Exc MemoErr      (* code not in B D E *)
-      else if negb (Nat.eqb (length vid) 44) then Exc MemoErr
-      else if 16 <=? idx (hd 0 rest) then Exc MemoErr                    (* non-zero midpad bits *)
-      else if c =? 66 then sigverify vid sig ser
-      else match keep vid with
-           | None => Exc MemoErr                                         (* missing keyage *)
-           | Some qvk => sigverify qvk sig ser
-           end
+    match key_raw vid, decode_sgn sig with
+    | Some k, Some rs => rawverify k rs ser
+    | _, _ => Exc MemoErr
     end.
 End Verify.
 
